@@ -50,8 +50,11 @@ ASSUMPTIONS = [
     "(tag rejected_possible) but is not a violation of this property's statement",
     "PYTHONHASHSEED (R-clause): until `fix:` b76144c idc_star's answer depended on the hash seed (corpus/C08/hash_order_dependent.json: "
     "the keys taken from a Python set in get_new_outcomes_and_conditions decided which condition is exchanged first); the code now "
-    "sorts them by _variable_sort_key, the model is run with kordf = orderDistrict false (all theorems hold for every kordf), and "
-    "the check runs a batch of multi-condition inputs (the old witnesses first) UNPATCHED in fresh interpreters under several hash "
+    "sorts them by _variable_sort_key, the model is run with kordf = orderDistrict false (all theorems hold for every kordf); PROVED "
+    "for the model (idcstar_reassociation_order_independent, idcstar_order_independent): with the set iterated in ANY order pi before "
+    "the sort, the re-association and -- on inputs without self-intervened keys (IdcInv) -- the whole of idc_star return the same "
+    "answer; that Python's sorted() over the set behaves like the model's sort of a permutation is the runtime part: "
+    "the check therefore also runs a batch of multi-condition inputs (the old witnesses first) UNPATCHED in fresh interpreters under several hash "
     "seeds: differing answers are judged one by one, a wrong one is the never-listed kind 'order-dependent-verdict'; the other "
     "set-valued iterations (worlds in cg.py, district nodes in id_star.py) are still driven through all their orders in-process",
     "attribution to a listed finding needs TWO things: the broken step is identified on the input by exact evaluation (below) AND "
@@ -1031,7 +1034,7 @@ MANIFEST = {
              "(ValueError) every condition for which ID* answers Zero, in particular every condition that violates "
              "effectiveness, before doing anything else; the model is defined for every fuel, an answer reached with some fuel "
              "is not changed by more fuel; every leaf of a returned estimand is a single-world interventional term (C06 part); "
-             "Zero from line 3 (inconsistent joint event) is sound in every compatible functional SCM (by C18's cg_prob); the final division is fully modelled; the line-4 recursion terminates within |conditions| + 1 levels when no name is both an outcome and a condition (idcstar_own_recursion_terminates) and, without an explicit bound, on every input without self-intervened keys even when outcomes and conditions are copies of the same variables (idcstar_terminates_shared_names); the returned value EQUALS P(outcomes, conditions)/P(conditions) in every compatible functional SCM on the observational no-exchange fragment (idcstar_sound_fragment, via idstar_sound_fragment, the repaired conditional and marginalisation) and on the exchange fragment (idcstar_sound_fragment_exchange: one factual condition to which rule 2 applies, all or no outcomes descending from it; rule 2 of the do-calculus proved for functional SCMs on the noise space, no positivity assumption). Outside these fragments soundness of the returned value and of Zero from inside ID* has NO theorem (it inherits F10 from "
+             "Zero from line 3 (inconsistent joint event) is sound in every compatible functional SCM (by C18's cg_prob); the final division is fully modelled; the line-4 recursion terminates within |conditions| + 1 levels when no name is both an outcome and a condition (idcstar_own_recursion_terminates) and, without an explicit bound, on every input without self-intervened keys even when outcomes and conditions are copies of the same variables (idcstar_terminates_shared_names); after `fix:` b76144c the answer does not depend on the order in which Python iterates the set of re-associated keys (idcstar_reassociation_order_independent for every relabelled event with pairwise different event keys; idcstar_order_independent for the whole recursion on inputs without self-intervened keys: any permutation before the sort gives the same answer); the returned value EQUALS P(outcomes, conditions)/P(conditions) in every compatible functional SCM on the observational no-exchange fragment (idcstar_sound_fragment, via idstar_sound_fragment, the repaired conditional and marginalisation) and on the exchange fragment (idcstar_sound_fragment_exchange: one factual condition to which rule 2 applies, all or no outcomes descending from it; rule 2 of the do-calculus proved for functional SCMs on the noise space, no positivity assumption). Outside these fragments soundness of the returned value and of Zero from inside ID* has NO theorem (it inherits F10 from "
              "ID* and adds the bound-range part of F11 and an exchange step that ignores the other conditions); the check decides it by correspondence with the real "
              "code plus exact evaluation of P(outcomes, conditions)/P(conditions) on sampled functional SCMs; every wrong answer is "
              "attributed to the first step of IDC*'s chain of claims that exact evaluation shows to be broken (reassociation, "
@@ -1041,5 +1044,5 @@ MANIFEST = {
     "note": ("Trusted: Lean kernel + standard axioms; hand-written models (ID*, counterfactual graph, d-separation of the sep "
              "family, Expression.conditional) tied to the code by differential testing under all set-iteration orders; the "
              "reading convention of estimands; sampled models (8 per case, P(conditions) > 0)."),
-    "technique": "Lean 4 theorems (rejection of impossible conditions, soundness on two named fragments incl. rule 2 for functional SCMs, termination of the line-4 recursion, vocabulary invariant) + differential correspondence (answers and fragment / termination-hypothesis verdicts) + exact-rational functional-SCM oracle + shrunk known findings",
+    "technique": "Lean 4 theorems (rejection of impossible conditions, soundness on two named fragments incl. rule 2 for functional SCMs, termination of the line-4 recursion, independence of the set-iteration order, vocabulary invariant) + differential correspondence (answers and fragment / termination-hypothesis verdicts) + exact-rational functional-SCM oracle + shrunk known findings",
 }
